@@ -80,6 +80,10 @@ Est == /\ R.e = "est" /\ ~IsConn(R.c) /\ conns' = conns \cup {[c |-> R.c, peer |
 DialFail == /\ R.e = "dialfail" /\ pd[R.peer] > 0 /\ pd' = [pd EXCEPT ![R.peer] = @ - 1]
             /\ opens' = Blame(R.peer)
             /\ UNCHANGED <<reg, q, conns, osr, nosr, okst, fails, inbp>>
+(* an inbound connection of the peer was denied by another behaviour after this one had built its handler: the requests
+   the unused handler had taken over die with it *)
+InDeny == /\ R.e = "indeny" /\ opens' = Blame(R.peer)
+          /\ UNCHANGED <<reg, q, conns, pd, osr, nosr, okst, fails, inbp>>
 CloseC == /\ R.e = "close" /\ IsConn(R.c) /\ R.peer = PeerOf(R.c)
           /\ conns' = {x \in conns : x.c # R.c} /\ osr' = [osr EXCEPT ![R.c] = <<>>]
           /\ opens' = Blame(R.peer)
@@ -118,7 +122,7 @@ End == /\ R.e = "end" /\ (\A i \in 1..Len(opens) : Waiting(i) => Justified(i)) =
 Skip == R.e = "skip" /\ UNCHANGED <<reg, q, conns, pd, opens, osr, nosr, okst, fails, inbp>>
 
 Next == l <= NRec /\ l' = l + 1 /\
-        (Reset \/ Accept \/ DropInc \/ Inb \/ Inb1 \/ Inb2 \/ Recv \/ Open \/ Cancel \/ BehDial \/ BehQuiet \/ Est \/ DialFail \/ CloseC
+        (Reset \/ Accept \/ DropInc \/ Inb \/ Inb1 \/ Inb2 \/ Recv \/ Open \/ Cancel \/ BehDial \/ BehQuiet \/ Est \/ DialFail \/ InDeny \/ CloseC
          \/ HOsr \/ HQuiet \/ OutOk \/ OutFail \/ Res \/ End \/ Skip)
 Spec == Init /\ [][Next]_vars
 (* T3: a stream is never queued for two registrations, nor twice *)
